@@ -44,7 +44,17 @@ MUTABLE = ("list", "dict", "solver", "wcnf")
 
 
 def is_mutable(t):
-    return t in ("solver", "wcnf", "zopt") or (isinstance(t, tuple) and t[0] in ("list", "dict", "set"))
+    return t in ("solver", "wcnf", "zopt") or (isinstance(t, tuple) and t[0] in ("list", "dict", "set", "wdict"))
+
+
+def coerce(code, t, want):
+    """value of static type t where `want` is expected: None / int into Optional[int]"""
+    if want == "optint":
+        if t == "none":
+            return "None", "optint"
+        if t == "int":
+            return "(Some %s)" % code, "optint"
+    return code, t
 
 
 def unify(a, b):
@@ -63,7 +73,7 @@ def unify(a, b):
 
 # ------------------------------------------------------------------------------------------------ function table
 class Fn:
-    def __init__(self, name, coq, params, ret=None, cls=None, state=None, ret_union=False, fuel=False, pure=False, mutates=(), abstract=False, returns_state=()):
+    def __init__(self, name, coq, params, ret=None, cls=None, state=None, ret_union=False, fuel=False, pure=False, mutates=(), abstract=False, returns_state=(), locals_=None):
         self.name, self.coq, self.params, self.ret, self.cls = name, coq, params, ret, cls
         self.state = state or []          # [(key, coqname, type)] read from self.epistemic_state
         self.ret_union = ret_union        # `return False, x` / `return v, x`  ->  (PFalse, x) / (PVal v, x)
@@ -72,6 +82,7 @@ class Fn:
         self.mutates = set(mutates)       # names of parameters the body mutates
         self.abstract = abstract          # an abstract method: a parameter of every generated function that calls it
         self.uses = []                    # abstract methods this function calls
+        self.locals_ = dict(locals_ or {})       # declared types of local variables (Optional[int] cannot be inferred)
         self.returns_state = list(returns_state)   # parameters (solver objects) whose final state is returned with the result
 
 
@@ -257,6 +268,10 @@ class X:
             if it != "int":
                 fail(e, "dict key of type %r" % (it,))
             return name, t[1], b + ib + [(name, "zdict_get %s %s" % (c, i), "cbind")]
+        if isinstance(t, tuple) and t[0] == "wdict":
+            if it != "world":
+                fail(e, "ranking-table key of type %r" % (it,))
+            return name, t[1], b + ib + [(name, "wdict_get %s %s" % (c, i), "cbind")]
         if isinstance(t, tuple) and t[0] == "tuple" and isinstance(e.slice, ast.Constant) and isinstance(e.slice.value, int):
             n = len(t[1])
             k = e.slice.value
@@ -297,6 +312,17 @@ class X:
         op = "&&" if isinstance(e.op, ast.And) else "||"
         parts = []
         binds = []
+        if len(e.values) == 2:
+            c1, b1 = self.truth(e.values[0], env)
+            if (c1 == "false" and op == "&&") or (c1 == "true" and op == "||"):
+                return c1, "bool", b1       # statically decided: the second operand is never evaluated
+            c2, b2 = self.truth(e.values[1], env)
+            if b2 and c1 not in ("true", "false"):
+                # the second operand may raise: it is evaluated only when the first does not decide
+                nm = self.ctx.fresh()
+                rest = wrap_binds(b2, "Next %s" % c2)
+                code = ("if %s then %s else Next false" % (c1, rest)) if op == "&&" else ("if %s then Next true else %s" % (c1, rest))
+                return nm, "bool", b1 + [(nm, code, "cbind")]
         for k, x in enumerate(e.values):
             c, b = self.truth(x, env)
             if b and k > 0:
@@ -356,11 +382,18 @@ class X:
             if isinstance(op, (ast.IsNot, ast.NotEq)):
                 return "(negb (is_pfalse %s))" % l, "bool", bl
         if isinstance(R, ast.Constant) and R.value is None and isinstance(op, (ast.Is, ast.IsNot)):
+            if tl == "optint":
+                return ("(is_none %s)" % l if isinstance(op, ast.Is) else "(negb (is_none %s))" % l), "bool", bl
             if tl == "none":
                 return ("true" if isinstance(op, ast.Is) else "false"), "bool", bl
             fail(e, "None test on %r" % (tl,))
         r, tr, br = self.tx(R, env)
         b = bl + br
+        if {tl, tr} <= {"int", "optint"} and "optint" in (tl, tr) and isinstance(op, ast.Lt):
+            lc, _ = coerce(l, tl, "optint")
+            rc, _ = coerce(r, tr, "optint")
+            nm = self.ctx.fresh()
+            return nm, "bool", b + [(nm, "py_lt_opt %s %s" % (lc, rc), "cbind")]
         if tl == "int" and tr == "int":
             sym = {ast.Eq: "=?", ast.Lt: "<?", ast.LtE: "<=?"}.get(type(op))
             if sym:
@@ -455,6 +488,26 @@ class X:
         p2 = target_pat(g2.target, env2, tit2[1])
         c, t = self.pure(e.elt, env2)
         return "(flat_map (fun %s => map (fun %s => %s) %s) %s)" % (p1, p2, c, it2, it), ("list", t), bit
+
+    def e_DictComp(self, e, env):
+        if len(e.generators) != 1 or e.generators[0].ifs:
+            fail(e, "dictionary comprehension with filters or several generators")
+        g = e.generators[0]
+        it, tit, bit = self.tx(g.iter, env)
+        if tit != ("list", "world"):
+            fail(e, "dictionary comprehension over %r" % (tit,))
+        env2 = dict(env)
+        p = target_pat(g.target, env2, "world")
+        kc, kt = self.pure(e.key, env2)
+        if kt != "world":
+            fail(e, "dictionary comprehension with keys of type %r" % (kt,))
+        vc, vt, vb = self.tx(e.value, env2)
+        if vt == "int":
+            vc, vt = coerce(vc, vt, "optint")
+        if vb:
+            nm = self.ctx.fresh()
+            return nm, ("wdict", vt), bit + [(nm, "map_m (fun %s => %s) %s" % (p, wrap_binds(vb, "Next (%s, %s)" % (kc, vc)), it), "cbind")]
+        return "(map (fun %s => (%s, %s)) %s)" % (p, kc, vc, it), ("wdict", vt), bit
 
     def quant(self, fname, e, env):
         g = e.args[0]
@@ -723,6 +776,13 @@ class X:
                     return coq, ty, []
             fail(e, "epistemic_state.get(%r)" % e.args[0].value)
         c, t, b = self.tx(f.value, env)
+        if isinstance(t, tuple) and t[0] == "wdict" and f.attr == "keys" and not e.args and not e.keywords:
+            return "(wdict_keys %s)" % c, ("list", "world"), b
+        if t == ("wdict", "optint") and f.attr == "get" and len(e.args) == 1 and not e.keywords:
+            kc, kt, kb = self.tx(e.args[0], env)
+            if kt != "world":
+                fail(e, "ranking-table key of type %r" % (kt,))
+            return "(wdict_getopt %s %s)" % (c, kc), "optint", b + kb
         if isinstance(t, tuple) and t[0] == "dict" and not e.args and not e.keywords:
             if f.attr == "values":
                 return "(dict_values %s)" % c, ("list", t[1]), b
@@ -1019,6 +1079,9 @@ class B:
                     self.subscript_assign(s, t, env, let, binds_in)
                     continue
                 c, ty, b = self.x.tx(s.value, env)
+                if isinstance(t, ast.Name) and t.id in self.ctx.fn.locals_:
+                    c, ty = coerce(c, ty, self.ctx.fn.locals_[t.id])
+                    unify(self.ctx.fn.locals_[t.id], ty)
                 binds_in(b)
                 if isinstance(s.value, ast.Name) and is_mutable(ty):
                     self.ctx.captured.add(s.value.id)
@@ -1258,6 +1321,12 @@ class B:
             fn.ret = unify(fn.ret, ty)
             return ("(" + ", ".join(cs) + ")") if rest else fc, binds
         c, t, b = self.x.tx(s.value, env)
+        if fn.ret == "optint":
+            c, t = coerce(c, t, "optint")
+        if fn.ret == "int" and t == "optint":
+            nm = self.ctx.fresh()
+            b = b + [(nm, "py_unopt %s" % c, "cbind")]
+            c, t = nm, "int"
         fn.ret = unify(fn.ret, t)
         if fn.returns_state:
             c = "(%s, %s)" % (c, tup(fn.returns_state))
@@ -1266,7 +1335,7 @@ class B:
 
 # ------------------------------------------------------------------------------------------------ driver
 COQ_TYPES = {"bool": "bool", "int": "Z", "form": "form", "cond": "cond", "solver": "solver", "str": "unit", "none": "unit",
-             "bb": "pybase", "deadline": "unit", "wcnf": "wcnf", "sclause": "sclause", "optimizer": "unit", "tseitin": "unit", "world": "world", "zopt": "zopt"}
+             "bb": "pybase", "deadline": "unit", "wcnf": "wcnf", "sclause": "sclause", "optimizer": "unit", "tseitin": "unit", "world": "world", "zopt": "zopt", "optint": "(option Z)"}
 
 
 def coq_type(t):
@@ -1277,6 +1346,8 @@ def coq_type(t):
             return "(list %s)" % coq_type(t[1])
         if t[0] == "dict":
             return "(dict Z %s)" % coq_type(t[1])
+        if t[0] == "wdict":
+            return "(wdict %s)" % coq_type(t[1])
         if t[0] == "res":
             return "(pyres %s)" % coq_type(t[1])
         if t[0] == "tuple":
@@ -1371,6 +1442,11 @@ def translate_function(tree, fn, table, consts):
         if fn.ret is None:
             raise Unsupported("%s: a recursive function needs a declared return type" % fn.name)
     code, ctl, term, _ = bt.block(body, env, None)
+    if (not recursive and not fn.returns_state and not fn.ret_union and term and code.count("Return ") == 1
+            and not any(k in code for k in ("cbind", "call ", "for_each", "while_true", "Raise", "Break", "Continue", "NoFuel"))):
+        # straight-line code ending in its only return: a plain definition (usable inside filters and quantifiers)
+        fn.pure = True
+        return ("Definition %s (n : nat) %s %s : %s :=\n  %s.\n" % (fn.coq, state, params, coq_type(fn.ret), code.replace("Return ", "", 1))).replace(HOLE, abstract_params(fn))
     code = code.replace(TAIL, "Return tt" if not fn.returns_state else "Return (tt, %s)" % tup(fn.returns_state))
     if "@@LOOP@@" in code:
         raise Unsupported("%s: break/continue outside a loop" % fn.name)
@@ -1401,6 +1477,7 @@ SCNF = ("list", "sclause")
 W_STATE = [("partition", "es_partition", PART_KEY), ("nf_cnf_dict", "es_nf_cnf_dict", ("dict", SCNF)),
            ("f_cnf_dict", "es_f_cnf_dict", ("dict", SCNF)), ("v_cnf_dict#query", "es_v_query", SCNF), ("f_cnf_dict#query", "es_f_query", SCNF)]
 
+RANKS = [("@ranks", "at_ranks", ("wdict", "optint"))]
 Z3_CONSTS = {"sat": ("true", "bool", []), "unsat": ("false", "bool", [])}
 
 TARGETS = [
@@ -1468,6 +1545,24 @@ TARGETS = [
            cls="LexInfZ3", ret="bool", state=[("partition", "es_partition", PART_OBJ)], returns_state=["opt_v", "opt_f"]),
         Fn("_inference", "py_LexInfZ3_inference", [("query", "cond"), ("weakly", "bool"), ("deadline", "none")],
            cls="LexInfZ3", ret="bool", state=[("partition", "es_partition", PART_OBJ)]),
+    ]),
+    dict(out="SrcOcf", file="inference/preocf.py", requires=["SrcCond"], funcs=[
+        Fn("rank_world", "m_rank_world", [("world", "world")], cls="PreOCF", ret="int", abstract=True),
+        Fn("world_satisfies_conditionalization", "py_PreOCF_world_satisfies", [("world", "world"), ("conditionalization", "form")],
+           cls="PreOCF", ret="bool"),
+        Fn("filter_worlds_by_conditionalization", "py_PreOCF_filter_worlds", [("conditionalization", "form")],
+           cls="PreOCF", state=RANKS),
+        Fn("conditionalize_existing_ranks", "py_PreOCF_conditionalize_existing_ranks", [("conditionalization", "form")],
+           cls="PreOCF", state=RANKS),
+        Fn("compute_conditionalization", "py_PreOCF_compute_conditionalization", [("conditionalization", "form")],
+           cls="PreOCF", state=RANKS),
+        Fn("formula_rank", "py_PreOCF_formula_rank", [("formula", "form")], cls="PreOCF", ret="optint", state=RANKS,
+           locals_={"min_rank": "optint"}),
+        Fn("conditional_acceptance", "py_PreOCF_conditional_acceptance", [("conditional", "cond")], cls="PreOCF", ret="bool", state=RANKS),
+    ]),
+    dict(out="SrcOcfCustom", file="inference/preocf.py", requires=[], funcs=[
+        Fn("rank_world", "py_CustomPreOCF_rank_world", [("world", "world"), ("force_calculation", "bool")], cls="CustomPreOCF", ret="int",
+           state=RANKS, locals_={"rank": "optint"}),
     ]),
     dict(out="SrcP", file="inference/p_entailment.py", requires=["SrcCond", "SrcCons"], funcs=[
         Fn("_inference", "py_PEntailment_inference", [("query", "cond"), ("weakly", "bool"), ("deadline", "deadline")],
